@@ -230,6 +230,31 @@ func TestVerifRace(t *testing.T) {
 		}
 		time.Sleep(30 * time.Millisecond)
 	})
+	// an IRC operator bans addresses (GLINE writes the replicated configuration while GET /config reads it)
+	var operSess *raceSession
+	worker("gline", 1, func(r *rand.Rand) {
+		if operSess == nil {
+			if s := create(); s != nil {
+				mu.Lock() // keep the operator out of the pool the other workers (and KILL/delete) pick from
+				for i, x := range sessions {
+					if x == s {
+						sessions = append(sessions[:i], sessions[i+1:]...)
+						break
+					}
+				}
+				mu.Unlock()
+				post(s, fmt.Sprintf("NICK oper%d", r.Intn(100000)))
+				post(s, "USER u 0 * :real")
+				post(s, "OPER op secret")
+				operSess = s
+			}
+			return
+		}
+		if code := post(operSess, fmt.Sprintf("GLINE %s%d :spam %d", []string{"n", "m", "x"}[r.Intn(3)], r.Intn(60), r.Intn(1000))); code == 404 {
+			operSess = nil
+		}
+		time.Sleep(15 * time.Millisecond)
+	})
 	worker("expire", 1, func(r *rand.Rand) {
 		restoreGate.RLock()
 		msgs := ircServer.ExpireSessions()
